@@ -20,6 +20,7 @@ func init() {
 			// under its own (type, tag) key
 			ruleOptionScope(c)
 			ruleKeySelf(c)
+			ruleMarshalViaCodec(c)
 			// Marshal(buf, v) = buf + Marshal(nil, v): what an encoder appends is what it sizes
 			ruleSizeLaw(c)
 			ruleFrame(c)
